@@ -211,6 +211,18 @@ def gen_random(rng, prof=None):
         # task names need not be unique (skills are per name, targeting and dependencies per object)
         j = rng.randrange(1, n)
         tasks[j]["name"] = tasks[rng.randrange(0, j)]["name"]
+    if wps and rng.random() < p.get("id_collision", 0.04):
+        # user-given IDs need not be unique ACROSS classes: a team called like a workplace, a worker like a facility
+        teams[rng.randrange(len(teams))]["id"] = wps[rng.randrange(len(wps))]["id"]
+        ws_ = [w for tm in teams for w in tm["workers"]]
+        fs_ = [f for wp in wps for f in wp["facilities"]]
+        if ws_ and fs_ and rng.random() < 0.5:
+            w_ = rng.choice(ws_)
+            old_id, new_id = w_["id"], rng.choice(fs_)["id"]
+            w_["id"] = new_id
+            for t in tasks:
+                if t["fixed_workers"]:
+                    t["fixed_workers"] = [new_id if x == old_id else x for x in t["fixed_workers"]]
     return dict(tasks=tasks, comps=comps, wps=wps, teams=teams, sim=sim, task_order=task_order)
 
 
